@@ -10,7 +10,10 @@ EXPLANATION = (
     "naming module, never read a representation option (A1C_USE_WIDE_TYPES, A1C_COMPOUND_NAMES, A1C_INDIRECT_CHOICE, "
     "A1C_NO_INCLUDE_DEPS, A1C_INCLUDES_QUOTED, A1C_NO_CONSTRAINTS). A read is any use of the enumerator in an "
     "expression. A violation makes the emitted wire tables a function of the option. The semantic fixer, whose results (constraints, "
-    "tags) feed those tables, cannot see these enumerators at all: they are declared in libasn1compiler only.")
+    "tags) feed those tables, cannot see these enumerators at all: they are declared in libasn1compiler only. R13.2: the "
+    "options decide whether a DEFAULT member is stored by value or through a pointer, so every member loop of the "
+    "SEQUENCE/SET encoders must decide presence through default_value_cmp (rule R06.3 evaluated here): a loop that "
+    "counts any existing storage as present makes the native and the -fwide-types build emit different bytes.")
 NOT_DECIDED = "equality of bytes across option sets; the runtime's wide/native INTEGER and REAL codecs producing the same octets"
 ASSUMPTIONS = ["identifier spelling (asn1c_naming.c, asn1c_make_identifier, asn1c_type_name) does not influence table contents other than names"]
 
@@ -61,7 +64,12 @@ def run(ctx):
         else:
             r.ok(f, "*", "no representation option is read", f.line)
     r.note("roots %s; scope %d functions; naming module cut: %d functions" % (tab["wire_table_emitters"], len(scope), len(naming)))
-    return [r]
+    # R13.2: -fwide-types (and try_inline_default) decide whether a DEFAULT member is a by-value field or a pointer; the
+    # bytes can only agree if every member pass of the runtime decides presence by value (default_value_cmp), never by
+    # the mere existence of storage.  This is rule R06.3 evaluated for this property.
+    from . import c06
+    r2 = c06.r06_3(ctx.prog("S"), load_tables("c06"), rid="R13.2")
+    return [r, r2]
 
 
 def thorough(ctx):
